@@ -2,11 +2,15 @@ package main
 
 import (
 	"bytes"
+	"context"
 	"encoding/json"
 	"fmt"
 	"os"
+	"os/exec"
 	"path/filepath"
+	"strconv"
 	"strings"
+	"time"
 
 	depcmd "github.com/modernizing/coca/analysis/dep/app"
 	"github.com/modernizing/coca/pkg/adapter/cocafile"
@@ -197,7 +201,36 @@ func one(raw json.RawMessage) interface{} {
 	return rec
 }
 
+// A case normally takes about a second. When its process exceeds the per-case timeout the machine may simply have
+// been stalled (shared, oversubscribed hosts): the case is run once more, alone, with a long timeout, and only a
+// second timeout is recorded as an observation.
+func retry(raw json.RawMessage) (json.RawMessage, bool) {
+	self, err := os.Executable()
+	if err != nil {
+		return nil, false
+	}
+	ctx, cancel := context.WithTimeout(context.Background(), 5*time.Minute)
+	defer cancel()
+	cmd := exec.CommandContext(ctx, self, "one")
+	cmd.Stdin = bytes.NewReader(raw)
+	var so bytes.Buffer
+	cmd.Stdout = &so
+	if err := cmd.Run(); err != nil || ctx.Err() != nil {
+		return nil, false
+	}
+	out := bytes.TrimSpace(so.Bytes())
+	if len(out) == 0 || !json.Valid(out) {
+		return nil, false
+	}
+	return json.RawMessage(out), true
+}
+
 func abnormal(raw json.RawMessage, timeout bool, stderr string) interface{} {
+	if timeout {
+		if rec, ok := retry(raw); ok {
+			return rec
+		}
+	}
 	var c Case
 	json.Unmarshal(raw, &c)
 	normalize(&c.Input)
@@ -222,5 +255,9 @@ func main() {
 		probe()
 		return
 	}
-	lib.Main(lib.Handler{One: one, Gen: gen, Abnormal: abnormal})
+	caseTimeout := 60 * time.Second
+	if ms, err := strconv.Atoi(os.Getenv("DEPS_CASE_TIMEOUT_MS")); err == nil && ms > 0 { // development aid: exercise the retry path
+		caseTimeout = time.Duration(ms) * time.Millisecond
+	}
+	lib.Main(lib.Handler{One: one, Gen: gen, Abnormal: abnormal, CaseTimeout: caseTimeout})
 }
